@@ -284,6 +284,6 @@ func C19(tier string) {
 	run.Sample(map[string]any{"case": "named/none", "crash_created_by": outs[1].createdBy, "entry_decl": entryLine[1], "go_stmt": goLine[1]})
 	run.Assumptions = append(run.Assumptions, "obligation only when the entry function syntactically defers no function containing a recover call (generator tag), validated by the native outcome (process died of that goroutine's panic)",
 		"the crash trace's 'created by' line identifies the go statement")
-	run.Finish("exploration", "cross product of 21 go-statement forms x 12 panic-handling forms; each case is run natively with the panic forced inside that goroutine (both outcomes of the opaque bit); "+
+	run.Finish("exploration", "cross product of 21 go-statement forms x 15 panic-handling forms; each case is run natively with the panic forced inside that goroutine (both outcomes of the opaque bit); "+
 		"non-trivial = case whose entry has no recovering defer and whose native run died; oracle: entry function in the report with the go statement among its creators, also under -exclude of another package")
 }
